@@ -18,6 +18,7 @@ package consensus
 // torn length of that recovery+append cycle (second generation).
 
 import (
+	"encoding/binary"
 	"fmt"
 	"runtime/debug"
 	"sort"
@@ -444,8 +445,10 @@ type c03Case struct {
 	K1      int            `json:"crash1_point"` // number of file-system calls of the history that were applied
 	Tear1   map[string]int `json:"crash1_file_lengths"`
 	Append1 []int          `json:"append1_lens"`
-	K2      int            `json:"crash2_point"` // -1: no second crash
+	Zero1   map[string]int `json:"crash1_zeroed_tail,omitempty"` // trailing bytes of the surviving content that read as zeros
+	K2      int            `json:"crash2_point"`                 // -1: no second crash
 	Tear2   map[string]int `json:"crash2_file_lengths,omitempty"`
+	Zero2   map[string]int `json:"crash2_zeroed_tail,omitempty"`
 	Append2 []int          `json:"append2_lens,omitempty"`
 }
 
@@ -455,6 +458,32 @@ func c03TearMap(img *crashfs.Image) map[string]int {
 		m[p] = len(b)
 	}
 	return m
+}
+
+func c03ZeroMap(tears []crashfs.Tear) map[string]int {
+	var m map[string]int
+	for _, t := range tears {
+		if t.Zeroed > 0 {
+			if m == nil {
+				m = map[string]int{}
+			}
+			m[t.Path] = t.Zeroed
+		}
+	}
+	return m
+}
+
+// c03Torn: the image is not a clean cut at a durable / complete boundary.
+func c03Torn(tears []crashfs.Tear) (torn, zeroed bool) {
+	for _, t := range tears {
+		if t.Survived != t.Durable && t.Survived != t.Full {
+			torn = true
+		}
+		if t.Zeroed > 0 {
+			torn, zeroed = true, true
+		}
+	}
+	return
 }
 
 // ---- dedup set ----------------------------------------------------------------------------
@@ -512,12 +541,12 @@ type c03Explorer struct {
 	seen1, seen2 *c03Set
 	verbose      bool
 
-	nHist, nPoints, nImg1, nImg1Distinct, nImg2, nImg2Distinct atomic.Int64
-	nRepair, nEOF, nNotExist, nHkRemovals, nSkipped2           atomic.Int64
-	nTornImages, nInsideOp, nNonExhaustiveTear, nMultiUnsynced atomic.Int64
-	stop                                                       atomic.Bool // budget used up
-	sampleMu                                                   sync.Mutex
-	nSamples                                                   map[string]int
+	nHist, nPoints, nImg1, nImg1Distinct, nImg2, nImg2Distinct           atomic.Int64
+	nRepair, nEOF, nNotExist, nHkRemovals, nSkipped2                     atomic.Int64
+	nTornImages, nInsideOp, nNonExhaustiveTear, nMultiUnsynced, nZeroImg atomic.Int64
+	stop                                                                 atomic.Bool // budget used up
+	sampleMu                                                             sync.Mutex
+	nSamples                                                             map[string]int
 }
 
 func c03Boundaries(fc *crashfs.FileCrashState) []int {
@@ -645,12 +674,7 @@ func (e *c03Explorer) exploreHistory(w *c03Worker, ops []c03Op) {
 func (e *c03Explorer) exploreImage1(w *c03Worker, h *c03Hist, opNames []string, k1, floor, synced int, img *crashfs.Image, tears []crashfs.Tear) {
 	e.nImg1.Add(1)
 	ikey := img.Key()
-	torn := false
-	for _, t := range tears {
-		if t.Survived != t.Durable && t.Survived != t.Full {
-			torn = true
-		}
-	}
+	torn, zeroed := c03Torn(tears)
 	var lens strings.Builder
 	for _, a := range h.app {
 		fmt.Fprintf(&lens, "%d,", len(a))
@@ -660,7 +684,10 @@ func (e *c03Explorer) exploreImage1(w *c03Worker, h *c03Hist, opNames []string, 
 			continue
 		}
 		e.nImg1Distinct.Add(1)
-		c := c03Case{Ops: opNames, K1: k1, Tear1: c03TearMap(img), Append1: ap, K2: -1}
+		if zeroed {
+			e.nZeroImg.Add(1)
+		}
+		c := c03Case{Ops: opNames, K1: k1, Tear1: c03TearMap(img), Zero1: c03ZeroMap(tears), Append1: ap, K2: -1}
 		cy := w.cycle(img, ap, 200)
 		e.count(cy)
 		shape := cy.shape
@@ -729,14 +756,15 @@ func (e *c03Explorer) exploreSecond(w *c03Worker, c c03Case, cy1 *c03Cycle) {
 			local[k] = true
 			e.nImg2Distinct.Add(1)
 			c2 := c
-			c2.K2, c2.Tear2, c2.Append2 = st.LogIdx, c03TearMap(img), e.append2
+			c2.K2, c2.Tear2, c2.Zero2, c2.Append2 = st.LogIdx, c03TearMap(img), c03ZeroMap(tears), e.append2
+			torn2, zeroed2 := c03Torn(tears)
+			if zeroed2 {
+				e.nZeroImg.Add(1)
+			}
 			cy2 := w.cycle(img, e.append2, 210)
 			e.count(cy2)
-			for _, t := range tears {
-				if t.Survived != t.Durable && t.Survived != t.Full {
-					e.r.Nontrivial(c.Tear1Key() + img.Key())
-					break
-				}
+			if torn2 {
+				e.r.Nontrivial(c.Tear1Key() + img.Key())
 			}
 			if kind, _ := c03Match(app2, 0, must, cy2.rec.recs); kind != "" && cy2.rec.err == nil && cy2.rec.panicTxt == "" {
 				cy2.viol = append([]c03Viol{{kind, fmt.Sprintf("first recovery returned %s, then %s were appended (synced: %v); second recovery returned %s (%s)",
@@ -787,7 +815,7 @@ func (e *c03Explorer) runCase(w *c03Worker, c c03Case) {
 		return
 	}
 	st := h.fs.StateAt(c.K1)
-	img := st.ImageWith(c.Tear1)
+	img := st.ImageWithZero(c.Tear1, c.Zero1)
 	synced := h.syncedBefore
 	if c.K1 == h.logLen {
 		synced = h.syncedAfter
@@ -808,7 +836,7 @@ func (e *c03Explorer) runCase(w *c03Worker, c c03Case) {
 		cy.viol = append([]c03Viol{{kind, fmt.Sprintf("appended %s, recovery returned %s", c03Lens(h.app), c03Lens(cy.rec.recs))}}, cy.viol...)
 	}
 	c1 := c
-	c1.K2, c1.Tear2, c1.Append2 = -1, nil, nil
+	c1.K2, c1.Tear2, c1.Zero2, c1.Append2 = -1, nil, nil, nil
 	for _, v := range cy.viol {
 		e.report(c1, 1, cy, v, "")
 	}
@@ -817,7 +845,7 @@ func (e *c03Explorer) runCase(w *c03Worker, c c03Case) {
 	}
 	app2 := c03Concat(cy.rec.recs, cy.newRecs...)
 	st2 := cy.fs.StateAt(c.K2)
-	img2 := st2.ImageWith(c.Tear2)
+	img2 := st2.ImageWithZero(c.Tear2, c.Zero2)
 	must := len(cy.rec.recs)
 	if c.K2 >= cy.syncDone {
 		must = len(app2)
@@ -870,7 +898,8 @@ func TestVerifC03(t *testing.T) {
 	r := ev.Start(t, "C03", "fault_enumeration")
 	r.SetBudget(80*time.Second, 14*time.Minute)
 	e := &c03Explorer{r: r, seen1: newC03Set(), seen2: newC03Set(), nSamples: map[string]int{}, second: true}
-	e.tear = &crashfs.TearOptions{AllUpTo: 64, Boundaries: c03Boundaries, MaxProduct: 4096}
+	e.tear = &crashfs.TearOptions{AllUpTo: 64, Boundaries: c03Boundaries, MaxProduct: 4096,
+		ZeroTails: crashfs.FramedZeroTails(8, func(h []byte) int { return int(binary.BigEndian.Uint32(h[4:8])) })}
 	full := []c03Op{c03W0, c03W1, c03W5, c03W4100, c03Sync, c03Shift, c03HkSoon, c03HkLate, c03Reopen}
 	reduced := []c03Op{c03W5, c03W4100, c03Sync, c03Shift, c03HkLate, c03Reopen}
 	type phase struct {
@@ -892,13 +921,15 @@ func TestVerifC03(t *testing.T) {
 	r.Rule(fmt.Sprintf("histories: %s, on a fresh log (FileLimit=%d, TotalLimit=%d bytes); "+
 		"crash points: every file-system call boundary of the last operation of every history (= every call of every operation, since all prefixes are histories); "+
 		"crash images: per file with an un-synced suffix every surviving length if the suffix is <= 64 bytes, else lengths {0,1,len-1,len} and b-1,b,b+1,b+7,b+8,b+9 around every record / write-call boundary b; "+
+		"plus the zero-filled-payload-tail family: for each such length whose last byte lies in the payload of a record with an intact un-synced header, the last z in {1, half, all} surviving payload bytes read as zeros (never a header byte); "+
 		"per image: recovery as in applyRoundWAL, append records of lengths %v (one run per variant), Sync, Close, read back; then every crash point x torn length of that cycle, second recovery, append %v, read back. "+
 		"evaluations = crash images recovered (both generations); distinct_nontrivial = distinct images with a torn (partially surviving) un-synced suffix or taken inside an operation",
 		phaseDesc, c03Cfg.FileLimit, c03Cfg.TotalLimit, e.append1, e.append2))
 	r.Assume(
 		"crash model: directory operations (create, remove, truncate, mkdir) are ordered and durable once issued",
 		"crash model: file data is durable up to the last File.Sync of that file; of the bytes written after it any byte prefix (and nothing else) may survive a crash, independently per file",
-		"no bit rot, no loss of synced data, no reordering of un-synced writes inside a file, no lost directory entries",
+		"additional family (size metadata may be durable before payload data): the file survives to some length but a tail of the un-synced bytes reads as zeros; enumerated only for zeros confined to the payload of the record in which the surviving content ends, whose 8-byte header survived intact (an all-zero header would parse as a valid empty record - outside the property's prefix quantifier - and is never produced)",
+		"no other bit rot, no loss of synced data, no reordering of un-synced writes inside a file, no lost directory entries",
 		"recovery procedure = control flow of consensus.applyRoundWAL (open for read, ReadBytes until error, CloseAndRepair on corrupted/unexpected EOF) followed by OpenWALForWrite, WriteBytes, Sync",
 		"records a recovery returned are on disk in the crash image, hence durable: a later recovery must return them again",
 		"housekeeping is driven by direct calls of doHousekeeping (the ticker never fires); elapsed time for the sync branch is simulated by moving eldestUnsyncData back",
@@ -967,6 +998,7 @@ func TestVerifC03(t *testing.T) {
 	r.Set("crash_points_inside_an_operation", e.nInsideOp.Load())
 	r.Set("crash_points_with_boundary_focused_tear_set", e.nNonExhaustiveTear.Load())
 	r.Set("crash_points_with_more_than_one_unsynced_file", e.nMultiUnsynced.Load())
+	r.Set("crash_images_with_zero_filled_payload_tail_run", e.nZeroImg.Load())
 	r.Set("crash_images_first_generation", e.nImg1.Load())
 	r.Set("crash_images_first_generation_distinct_cases_run", e.nImg1Distinct.Load())
 	r.Set("crash_images_first_generation_torn_or_inside_op_run", e.nTornImages.Load())
@@ -979,6 +1011,7 @@ func TestVerifC03(t *testing.T) {
 	r.Set("recoveries_finding_no_log", e.nNotExist.Load())
 	r.Set("head_segments_deleted_by_housekeeping", e.nHkRemovals.Load())
 	r.Sanity(e.nRepair.Load() > 0 && e.nEOF.Load() > 0 && e.nNotExist.Load() > 0, "vacuity: repair=%d eof=%d notexist=%d", e.nRepair.Load(), e.nEOF.Load(), e.nNotExist.Load())
+	r.Sanity(e.nZeroImg.Load() > 0, "vacuity: no zero-filled-tail image was run")
 	r.Sanity(e.nHkRemovals.Load() > 0, "vacuity: housekeeping never deleted a segment")
 	r.Sanity(e.nTornImages.Load() > 0 && e.nImg2Distinct.Load() > 0, "vacuity: torn images=%d second generation=%d", e.nTornImages.Load(), e.nImg2Distinct.Load())
 	r.Finish(allDone)
